@@ -407,7 +407,7 @@ impl Engine for MultiEngine {
                     }
                 }
                 8 => ops.push(MultiOp::Flush { a }),
-                9 => ops.push(MultiOp::SendConnless { a, len: s.range(0, 60) as u16, tag }),
+                9 => ops.push(MultiOp::SendConnless { a, len: if s.chance(1, 3) { *s.pick(&[1000u16, 1393, 1394, 1395, 1400, 2000, 65535]) } else { s.range(0, 60) as u16 }, tag }),
                 10 => ops.push(MultiOp::Tick),
                 11 => {
                     ops.push(MultiOp::Advance { usec: *s.pick(&[10_000u64, 250_000, 500_000, 600_000, 1_000_000, 1_100_000, 5_000_000]) });
@@ -726,8 +726,21 @@ impl MultiEngine {
                 let data = pl(seed, tag, len as usize);
                 let saved = w.cb.fail_left[a as usize];
                 w.cb.fail_left[a as usize] = 0;
+                // expectation from the wire format (6 bytes 0xff + payload, datagrams of at most 1400 bytes):
+                // Ok means exactly that datagram went to `a`; an error means nothing was sent; payloads up to
+                // 1000 bytes must be accepted, payloads that cannot fit a datagram must be refused
                 match w.net_call(ctx, a, |net, cb| net.send_connless(cb, a, &data).is_ok()) {
-                    Ok((_, out)) => {
+                    Ok((ok, out)) => {
+                        ctx.oracle_event = true;
+                        let mut want = vec![0xffu8; 6];
+                        want.extend_from_slice(&data);
+                        let good = if ok { out.len() == 1 && out[0].1 == want } else { out.is_empty() };
+                        if !good || (!ok && data.len() <= 1000) || (ok && data.len() > 1394) {
+                            stop!(Some(v("datagrams-differ-from-single-connection", &[("call", "send_connless")], format!("send_connless of {} bytes to address {}: ok={} and {} datagram(s) sent ({})", data.len(), a, ok, out.len(), out.first().map(|o| hexs(&o.1)).unwrap_or_default()))));
+                        }
+                        if !ok {
+                            ctx.count("probe_connless_refused");
+                        }
                         for (to, d, _) in &out {
                             if *to != a {
                                 stop!(Some(v("datagram-to-wrong-address", &[("call", "send_connless")], format!("send_connless({}) sent {} bytes to address {}", a, d.len(), to))));
@@ -736,8 +749,11 @@ impl MultiEngine {
                         }
                     }
                     Err(p) => {
-                        ctx.aborted_other = Some(format!("C04 panic in send_connless: {}", p.msg));
-                        stop!(None)
+                        if p.is_budget() {
+                            ctx.aborted_other = Some("C02 budget in Net during send_connless".into());
+                            stop!(None)
+                        }
+                        stop!(Some(v("endpoint-panics-single-connection-does-not", &[("call", "send_connless"), ("message", &p.msg_class()), ("file", &p.file_class())], format!("send_connless of {} bytes to address {} panicked in the multi-peer endpoint: {} at {}:{}", data.len(), a, p.msg, p.file, p.line))))
                     }
                 }
                 w.cb.fail_left[a as usize] = saved;
